@@ -128,6 +128,7 @@ Check eq_refl : Proofs.OracleC03.op_in_scope (Corr.EngineCase.OpAction (CCancelO
 Check eq_refl : Proofs.OracleC03.op_in_scope (Corr.EngineCase.OpProcess (EvCommand (CClosePositions FNone))) = true.
 Check eq_refl : Proofs.OracleC03.op_in_scope (Corr.EngineCase.OpProcess (EvTradingState true)) = true.
 Check eq_refl : Proofs.OracleC03.op_in_scope Corr.EngineCase.OpGenerate = true.
+Check eq_refl : Proofs.OracleC03.op_in_scope (Corr.EngineCase.OpHook Corr.EngineCase.HTradingDisabled (CCancelOrders FNone)) = false.
 Check eq_refl : Proofs.OracleC03.op_in_scope (Corr.EngineCase.OpSetLink 0 SClosed) = true.
 
 (* the definitions the statements rest on, pinned by evaluation *)
